@@ -92,6 +92,9 @@ class StubConverter:
         self.input = None      # bytes of the RTF it was given
         self.written = None    # bytes of its output file
         self.failed = False    # raised or returned a malformed result
+        self.in_name = None    # file name of the RTF it was given
+        self.out_name = None   # file name of the output it chose (named after its input, like LibreOffice)
+        self.res_name = None   # name of the resource folder it created (okRes)
 
     def convert(self, *, input_files, output_dir, format, overwrite):
         self.called += 1
@@ -102,8 +105,11 @@ class StubConverter:
         except OSError:
             self.failed = True
             raise FileNotFoundError(f"Input file not found: {inp}")
-        stem = os.path.splitext(os.path.basename(inp))[0]
-        out = os.path.join(os.fspath(output_dir), f"{stem}.{format}")
+        self.in_name = os.path.basename(inp)
+        # the same rule as LibreOfficeConverter._convert_single_file: f"{input_file.stem}.{format}"
+        stem = pathlib.PurePosixPath(self.in_name).stem
+        self.out_name = f"{stem}.{format}"
+        out = os.path.join(os.fspath(output_dir), self.out_name)
         data = format.encode() + b"<" + self.input + b">"
         beh = self.beh
         if beh == "failBefore":
@@ -121,6 +127,7 @@ class StubConverter:
             f.write(data)
         self.written = data
         if beh == "okRes":
+            self.res_name = self.out_name + "_files"
             _write_res(out + "_files")
         self.log.append("convert")
         if beh == "retList":
@@ -323,6 +330,8 @@ class Tracer:
         self.failed = {"encode": False, "resolve": False, "convert": False}
         self.depth_encode = 0
         self.resolve_entered = False
+        self.conv_in_name = None    # file name of the RTF handed to LibreOfficeConverter.convert
+        self.conv_out_name = None   # file name of the Path it returned
 
     # ---- profile side
     def profile(self, frame, event, arg):
@@ -339,6 +348,11 @@ class Tracer:
                 self.depth_encode += 1
             elif what == "resolve":
                 self.resolve_entered = True
+            elif what == "convert":
+                try:
+                    self.conv_in_name = os.path.basename(os.fspath(frame.f_locals.get("input_files")))
+                except TypeError:
+                    pass
             return
         if what == "encode":
             self.depth_encode -= 1
@@ -354,6 +368,8 @@ class Tracer:
                 self.failed["convert"] = True
             else:
                 self.log.events.append("convert")
+                if isinstance(arg, pathlib.PurePath):
+                    self.conv_out_name = arg.name
         # "resolve" (`LibreOfficeConverter()`): __init__ returns None either way; its success is inferred
         # from what follows (see `with_resolve`)
 
@@ -390,8 +406,47 @@ EXT = {"rtf": "rtf", "docx": "docx", "pdf": "pdf", "html": "html"}
 OLD = b"OLD CONTENT \xe9\n"
 
 
-def prepare(S: Path, fn: str, state: str) -> Path:
-    """build S/tmp, S/work in the given target state; returns the target path"""
+def default_name(fn: str) -> str:
+    return f"report.{EXT[fn]}"
+
+
+def converted_name(fn: str, name: str) -> str:
+    """the file name a converter that names its output after its input (LibreOffice, the stubs) produces for
+    the target name `name`: the export hands it `<target stem>.rtf`, it answers `<stem of that>.<format>`"""
+    rtf = f"{pathlib.PurePosixPath(name).stem}.rtf"
+    return f"{pathlib.PurePosixPath(rtf).stem}.{EXT[fn]}"
+
+
+FORMS = ("path", "str", "rel", "relpath", "dot", "updown", "dslash", "home")
+
+
+def target_argument(S: Path, target: Path, form: str):
+    """what is passed to write_*: the same file `target`, spelled differently.  Relative forms are relative to
+    the working directory S/work (the call runs with cwd = S/work), "home" uses HOME = S/work."""
+    rel = os.path.relpath(target, S / "work")
+    if form == "path":
+        return target
+    if form == "str":
+        return str(target)
+    if form == "rel":
+        return rel
+    if form == "relpath":
+        return Path(rel)
+    if form == "dot":
+        return "./" + rel
+    if form == "updown":
+        return os.path.join("..", "work", rel)
+    if form == "dslash":
+        return str(target.parent) + "//" + target.name
+    if form == "home":
+        return "~/" + rel
+    raise ValueError(form)
+
+
+def prepare(S: Path, fn: str, state: str, name: str | None = None) -> Path:
+    """build S/tmp, S/work in the given target state; returns the target path.  `name` = the target's file name
+    (default `report.<ext>`).  The *resource folder* of an HTML export is named after the converted file
+    (`<stem>.html_files`), which differs from `<target name>_files` unless the target's suffix is `.html`."""
     (S / "tmp").mkdir()
     (S / "tmp" / "decoy.txt").write_bytes(b"decoy")
     (S / "tmp" / "keepdir").mkdir()
@@ -399,22 +454,31 @@ def prepare(S: Path, fn: str, state: str) -> Path:
     w = S / "work"
     w.mkdir()
     (w / "bystander.txt").write_bytes(b"bystander")
-    ext = EXT[fn]
-    name = f"report.{ext}"
-    if state in ("existing", "absent", "existing_res", "res_is_file", "target_is_dir"):
+    if name is None:
+        name = default_name(fn)
+    res_name = converted_name(fn, name) + "_files"
+    if state in ("existing", "absent", "existing_res", "res_is_file", "target_is_dir", "named_files_dir"):
         d = w / "out"
         d.mkdir()
         (d / "other.txt").write_bytes(b"other")
         t = d / name
-        if state in ("existing", "existing_res", "res_is_file"):
+        if state in ("existing", "existing_res", "res_is_file", "named_files_dir"):
             t.write_bytes(OLD)
+        if res_name == name and state in ("existing_res", "res_is_file"):
+            state = "existing"   # the resource folder's path IS the target's path: nothing else to prepare
         if state == "existing_res":
-            r = d / f"{name}_files"
+            r = d / res_name
             r.mkdir()
             (r / "stale.txt").write_bytes(b"stale")
             (r / "r.txt").write_bytes(b"old resource")
         if state == "res_is_file":
-            (d / f"{name}_files").write_bytes(b"I am a file")
+            (d / res_name).write_bytes(b"I am a file")
+        if state == "named_files_dir":
+            # a folder called `<target name>_files` (a bystander unless that IS the resource folder's name)
+            r = d / f"{name}_files"
+            r.mkdir()
+            (r / "mine.txt").write_bytes(b"mine")
+            (r / "r.txt").write_bytes(b"not a resource")
         if state == "target_is_dir":
             t.mkdir()
             (t / "keep.txt").write_bytes(b"keep")
@@ -466,7 +530,8 @@ def classify(e: BaseException | None, tr: Tracer, stub) -> str:
 
 
 def run_export(case: dict) -> dict:
-    """case: fn, doc (spec), state, conv {mode, beh?}, fault (int|None), sites (bool), twice (bool)"""
+    """case: fn, doc (spec), state, conv {mode, beh?}, fault (int|None), sites (bool), twice (bool),
+    tname (target file name, default report.<ext>), form (how the target is spelled, see FORMS)"""
     import rtflite
     from . import docgen
 
@@ -475,10 +540,13 @@ def run_export(case: dict) -> dict:
     fn = case["fn"]
     S = Path(tempfile.mkdtemp(prefix="c18_"))
     saved_tempdir = tempfile.tempdir
-    saved_env = {k: os.environ.get(k) for k in ("PATH", "C18_SOFFICE_MODE")}
+    saved_env = {k: os.environ.get(k) for k in ("PATH", "C18_SOFFICE_MODE", "HOME")}
+    saved_cwd = os.getcwd()
     out: dict = {}
     try:
-        target = prepare(S, fn, case["state"])
+        target = prepare(S, fn, case["state"], case.get("tname"))
+        form = case.get("form") or "path"
+        arg = target_argument(S, target, form)
         (S / "assets").mkdir()
         tempfile.tempdir = str(S / "tmp")
         import io
@@ -505,11 +573,13 @@ def run_export(case: dict) -> dict:
             elif mode == "lookup_fail":
                 pass
         method = getattr(doc, "write_" + fn)
+        os.environ["HOME"] = str(S / "work")
+        os.chdir(S / "work")
         if case.get("twice"):
             # an earlier, unobserved export to the same path (D23 scenario)
             with contextlib.redirect_stdout(io.StringIO()):
                 pre = StubConverter("okRes", []) if fn != "rtf" else None
-                method(target, **({"converter": pre} if pre else {}))
+                method(arg, **({"converter": pre} if pre else {}))
         before = snapshot(S)
         tr = Tracer(libdir, log, case.get("fault"), bool(case.get("sites")))
         exc = None
@@ -519,13 +589,14 @@ def run_export(case: dict) -> dict:
             sys.setprofile(tr.profile)
             sys.settrace(tr)
             try:
-                method(target, **kwargs)
+                method(arg, **kwargs)
             except BaseException as e:  # noqa: BLE001
                 exc = e
             finally:
                 sys.settrace(None)
                 sys.setprofile(None)
                 sys.unraisablehook = saved_hook
+        os.chdir(saved_cwd)
         after = snapshot(S)
         raised = exc is not None
         # the injected exception was swallowed by the library iff the call went on: it returned, or it
@@ -549,6 +620,10 @@ def run_export(case: dict) -> dict:
         has_res = (fn == "html" and "convert" in log.events and
                    ((stub is not None and stub.beh == "okRes") or
                     (mode in ("real", "path") and conv["beh"] == "okres")))
+        # the name of the file the converter actually produced: the resource folder is its companion
+        out_seen = stub.out_name if stub is not None else tr.conv_out_name
+        if stub is not None and stub.res_name is not None and stub.res_name != (out_seen or "") + "_files":
+            raise RuntimeError("stub converter: inconsistent resource folder name")
         out = dict(
             before=before, after=after, raised=raised,
             exc=(type(exc).__name__ + ": " + str(exc)[:160]) if exc else None,
@@ -566,9 +641,15 @@ def run_export(case: dict) -> dict:
             written=_lat(written) if written is not None else None,
             has_res=has_res,
             dir=list(target.parent.relative_to(S).parts), tname=target.name,
-            rtf_name=f"{target.stem}.rtf", out_name=f"{target.stem}.{ext}",
+            rtf_name=f"{target.stem}.rtf", out_name=out_seen or converted_name(fn, target.name),
+            # names as observed at the converter (None when it was not reached / not observable)
+            conv_in_name=(stub.in_name if stub is not None else tr.conv_in_name),
+            conv_out_name=out_seen,
+            res_name=((out_seen + "_files") if (has_res and out_seen) else None),
+            form=form, arg=os.fspath(arg),
         )
     finally:
+        os.chdir(saved_cwd)
         tempfile.tempdir = saved_tempdir
         for k, v in saved_env.items():
             if v is None:
